@@ -318,7 +318,9 @@ def _run(chk):
         ctx.check("run: results sorted by delta_v; each (i,j) at most once",
                   z3.And([zv(res[k].delta_v) <= zv(res[k + 1].delta_v) for k in range(len(res) - 1)] +
                          [z3.BoolVal(all(once))]))
-    configs = [(2, 2, False)] if chk.tier == "thorough" else [(1, 2, True), (2, 1, True), (2, 2, "fixed-geometry")]
+    # (a fully symbolic 2-D 2x2 configuration does not finish within an hour - 30 000 NRA paths - and is not registered;
+    #  the thorough tier adds the collinear 2x2 configuration with all abscissae symbolic)
+    configs = [(1, 2, True), (2, 1, True), (2, 2, "fixed-geometry")]
     if chk.tier == "thorough":
         configs.append((2, 2, "collinear-geometry"))
     for nu_, ns_, red_ in configs:
